@@ -817,12 +817,26 @@ pub fn run(id: &str) {
         "K-legacy-smt" => {
             // control: on a network without the legacy rule the sealed coin tree is the tree of its contents
             let mut res = vec![];
-            for network in [net, NetID::Testnet] {
+            // (before TIP-906 whether the miscount shows depends on where the absent key's path ends, i.e. on the
+            // transaction hash: several variants of the deposit are tried and the first that shows it is reported)
+            let mut variants = vec![(net, 600u64, 0u128), (NetID::Testnet, 600, 0)];
+            for salt in 0..40u128 {
+                variants.push((NetID::Testnet, 400, salt));
+            }
+            for (network, height, salt) in variants {
+                if res.len() == 3 {
+                    let l2: &(bool, u64, u64, u64, u64, bool) = &res[2];
+                    if !l2.5 || l2.2 != l2.4 {
+                        break;
+                    }
+                    res.pop();
+                }
                 let mut p = Pc::new();
-                let (mut u, wc) = p.base(network, 600, 0);
+                let (mut u, wc) = p.base(network, height, 0);
+                let counted = network != NetID::Testnet || height >= 500;
                 let a0 = p.key_addr(0);
                 let key = PoolKey::new(Denom::Mel, Denom::Sym);
-                let dep = p.tx(TxKind::LiqDeposit, &[wc[0].clone(), wc[4].clone()], vec![out(a0, 1000, Denom::Mel), out(a0, 1000, Denom::Sym), out(a0, 1_000_000_000_000 - 1000, Denom::Sym)], key.to_bytes().to_vec(), 0);
+                let dep = p.tx(TxKind::LiqDeposit, &[wc[0].clone(), wc[4].clone()], vec![out(a0, 1000 + salt, Denom::Mel), out(a0, 1000, Denom::Sym), out(a0, 1_000_000_000_000 - 1000, Denom::Sym)], key.to_bytes().to_vec(), 0);
                 let ok = u.apply_tx(&dep).is_ok();
                 let before = u.verif_parts().coins.count();
                 let s = u.seal(None);
@@ -835,17 +849,17 @@ pub fn run(id: &str) {
                 let mut n = 0u64;
                 for id in ids {
                     if let Some(c) = s.coin(id) {
-                        fresh.insert_coin(id, c, true);
+                        fresh.insert_coin(id, c, counted);
                         n += 1;
                     }
                 }
                 let same_root = fresh.root_hash().0 == s.raw_coins_smt().root_hash();
                 res.push((ok, before, after, n, fresh.inner().count(), same_root));
             }
-            let (c, l) = (res[0], res[1]);
-            verdict(id, c.0 && l.0 && c.5 && c.2 == c.4 && (!l.5 || l.2 != l.4),
-                &format!("control(net {:?}): applied={} tree-count before/after seal={}/{} rebuilt={} root-equals-rebuilt={}; legacy(testnet 600): applied={} tree-count before/after seal={}/{} rebuilt={} coins={} root-equals-rebuilt={}",
-                    net, c.0, c.1, c.2, c.4, c.5, l.0, l.1, l.2, l.4, l.3, l.5));
+            let (c, l, l2) = (res[0], res[1], res[2]);
+            verdict(id, c.0 && l.0 && l2.0 && c.5 && c.2 == c.4 && (!l.5 || l.2 != l.4 || !l2.5 || l2.2 != l2.4),
+                &format!("control(net {:?}): applied={} tree-count before/after seal={}/{} rebuilt={} root-equals-rebuilt={}; legacy(testnet 600): applied={} tree-count before/after seal={}/{} rebuilt={} coins={} root-equals-rebuilt={}; legacy before TIP-906 (testnet 400): tree-count after seal={} rebuilt={} root-equals-rebuilt={}",
+                    net, c.0, c.1, c.2, c.4, c.5, l.0, l.1, l.2, l.4, l.3, l.5, l2.2, l2.4, l2.5));
         }
         // K-liq-saturation: `PoolState::deposit` (melstructs) adds the liquidity it issues with a saturating add, but
         // hands out the unsaturated amount: pool (2^120, 1) with 2^120 tokens issued; a deposit of (2^120, 2^120)
